@@ -103,14 +103,15 @@ theorem sortNat_spec (l : List Nat) : NonDecFrom 0 (sortNat l) ∧ ∀ y, y ∈ 
     have := insertNat_spec x (sortNat t) 0 ih.1 (Nat.zero_le _)
     exact ⟨this.1, fun y => by simp [sortNat, this.2, ih.2]⟩
 
-/-- Builder invariant w.r.t. the list `pushed` of everything pushed so far. -/
-structure FdInv (sh : Nat) (b : FdBuilder) (pushed : List Nat) : Prop where
+/-- Builder invariant w.r.t. the MOC `base` the builder was started from and the list `pushed` of
+    everything pushed so far. -/
+structure FdInv (sh : Nat) (b : FdBuilder) (base : List Rng) (pushed : List Nat) : Prop where
   sortedOk : b.sorted = true → NonDecFrom 0 b.buff
   canon : Canon (b.moc.getD [])
-  sem : ∀ x, (mem x (b.moc.getD []) ∨ x / 2 ^ sh ∈ b.buff) ↔ x / 2 ^ sh ∈ pushed
+  sem : ∀ x, (mem x (b.moc.getD []) ∨ x / 2 ^ sh ∈ b.buff) ↔ (mem x base ∨ x / 2 ^ sh ∈ pushed)
 
-theorem FdInv.drain {sh : Nat} {b : FdBuilder} {pushed : List Nat} (h : FdInv sh b pushed) :
-    FdInv sh (b.drain sh) pushed := by
+theorem FdInv.drain {sh : Nat} {b : FdBuilder} {base : List Rng} {pushed : List Nat} (h : FdInv sh b base pushed) :
+    FdInv sh (b.drain sh) base pushed := by
   have hbuf : NonDecFrom 0 (if b.sorted then b.buff else sortNat b.buff) ∧
       ∀ y, y ∈ (if b.sorted then b.buff else sortNat b.buff) ↔ y ∈ b.buff := by
     by_cases hs : b.sorted = true
@@ -164,8 +165,8 @@ theorem nonDec_append (l : List Nat) : ∀ lo x, NonDecFrom lo l → (∀ y, l.g
           have h3 := hl y (by rw [List.getLast?_cons_cons]; exact hgl)
           omega
 
-theorem FdInv.push {sh cap : Nat} {b : FdBuilder} {pushed : List Nat} (h : FdInv sh b pushed) (idx : Nat) :
-    FdInv sh (b.push sh cap idx) (pushed ++ [idx]) := by
+theorem FdInv.push {sh cap : Nat} {b : FdBuilder} {base : List Rng} {pushed : List Nat} (h : FdInv sh b base pushed) (idx : Nat) :
+    FdInv sh (b.push sh cap idx) base (pushed ++ [idx]) := by
   unfold FdBuilder.push
   cases hl : b.buff.getLast? with
   | some last =>
@@ -174,21 +175,21 @@ theorem FdInv.push {sh cap : Nat} {b : FdBuilder} {pushed : List Nat} (h : FdInv
     by_cases he : last = idx
     · rw [if_pos he]
       refine ⟨h.sortedOk, h.canon, fun x => ?_⟩
-      rw [h.sem]
       simp only [List.mem_append, List.mem_singleton]
+      rw [← or_assoc (a := mem x base), ← h.sem]
       constructor
       · exact Or.inl
       · rintro (h' | h')
         · exact h'
-        · rw [← h.sem]; right; rw [h', ← he]; exact hlast_mem
+        · right; rw [h', ← he]; exact hlast_mem
     · rw [if_neg he]
-      have inv' : FdInv sh { b with sorted := b.sorted && !(decide (last > idx)), buff := b.buff ++ [idx] } (pushed ++ [idx]) := by
+      have inv' : FdInv sh { b with sorted := b.sorted && !(decide (last > idx)), buff := b.buff ++ [idx] } base (pushed ++ [idx]) := by
         refine ⟨?_, h.canon, fun x => ?_⟩
         · intro hs
           simp at hs
           exact nonDec_append b.buff 0 idx (h.sortedOk hs.1) (fun y hy => by rw [hl] at hy; injection hy with hy; omega) (Nat.zero_le _)
         · simp only [List.mem_append, List.mem_singleton]
-          rw [← h.sem]
+          rw [← or_assoc (a := mem x base), ← h.sem]
           constructor
           · rintro (h' | h' | h')
             · exact Or.inl (Or.inl h')
@@ -207,11 +208,11 @@ theorem FdInv.push {sh cap : Nat} {b : FdBuilder} {pushed : List Nat} (h : FdInv
       cases hb : b.buff with
       | nil => rfl
       | cons a t => rw [hb] at hl; simp at hl
-    have inv' : FdInv sh { b with buff := b.buff ++ [idx] } (pushed ++ [idx]) := by
+    have inv' : FdInv sh { b with buff := b.buff ++ [idx] } base (pushed ++ [idx]) := by
       refine ⟨?_, h.canon, fun x => ?_⟩
       · intro _; rw [hbe]; exact ⟨Nat.zero_le _, trivial⟩
       · simp only [List.mem_append, List.mem_singleton]
-        rw [← h.sem]
+        rw [← or_assoc (a := mem x base), ← h.sem]
         constructor
         · rintro (h' | h' | h')
           · exact Or.inl (Or.inl h')
@@ -225,8 +226,8 @@ theorem FdInv.push {sh cap : Nat} {b : FdBuilder} {pushed : List Nat} (h : FdInv
     · exact inv'.drain
     · exact inv'
 
-theorem FdInv.foldl {sh cap : Nat} (cells : List Nat) : ∀ {b : FdBuilder} {pushed : List Nat}, FdInv sh b pushed →
-    FdInv sh (cells.foldl (FdBuilder.push sh cap) b) (pushed ++ cells) := by
+theorem FdInv.foldl {sh cap : Nat} {base : List Rng} (cells : List Nat) : ∀ {b : FdBuilder} {pushed : List Nat}, FdInv sh b base pushed →
+    FdInv sh (cells.foldl (FdBuilder.push sh cap) b) base (pushed ++ cells) := by
   induction cells with
   | nil => intro b pushed h; simpa using h
   | cons c t ih =>
@@ -255,7 +256,7 @@ theorem mem_map_cellRange (sh : Nat) (cells : List Nat) (x : Nat) :
     arrival, nor duplicates, nor the capacity. -/
 theorem fromFixedDepthCells_eq (sh cap : Nat) (cells : List Nat) :
     fromFixedDepthCells sh cap cells = normalize (cells.map fun c => (c <<< sh, (c + 1) <<< sh)) := by
-  have h0 : FdInv sh {} [] := ⟨fun _ => trivial, trivial, fun x => by simp⟩
+  have h0 : FdInv sh {} [] [] := ⟨fun _ => trivial, trivial, fun x => by simp⟩
   have hf := (FdInv.foldl (sh := sh) (cap := cap) cells h0).drain
   simp only [List.nil_append] at hf
   have ns := normalize_spec (cells.map fun c => (c <<< sh, (c + 1) <<< sh))
@@ -265,6 +266,21 @@ theorem fromFixedDepthCells_eq (sh cap : Nat) (cells : List Nat) :
   rw [ns.2, mem_map_cellRange]
   have := hf.sem x
   have hb : ((cells.foldl (FdBuilder.push sh cap) {}).drain sh).buff = [] := rfl
+  rw [hb] at this
+  simpa using this
+
+/-- **`append_fixed_depth_cells`**: a builder started from an existing canonical MOC returns the union of
+    that MOC with the pushed cells, for every order, duplication and capacity. -/
+theorem appendFixedDepthCells_spec (sh cap : Nat) (moc : List Rng) (hm : Canon moc) (cells : List Nat) :
+    Canon (appendFixedDepthCells sh cap moc cells) ∧
+    ∀ x, mem x (appendFixedDepthCells sh cap moc cells) ↔ mem x moc ∨ x / 2 ^ sh ∈ cells := by
+  have h0 : FdInv sh { moc := some moc } moc [] := ⟨fun _ => trivial, hm, fun x => by simp⟩
+  have hf := (FdInv.foldl (sh := sh) (cap := cap) cells h0).drain
+  simp only [List.nil_append] at hf
+  unfold appendFixedDepthCells FdBuilder.intoMoc
+  refine ⟨hf.canon, fun x => ?_⟩
+  have := hf.sem x
+  have hb : ((cells.foldl (FdBuilder.push sh cap) { moc := some moc }).drain sh).buff = [] := rfl
   rw [hb] at this
   simpa using this
 
